@@ -82,6 +82,15 @@ def monitor(rec):
     """direct check of the property on one real run"""
     job = rec['job']
     v = []
+    if job.get('two_labs'):
+        for k, o in rec.get('two_labs_seen', {}).items():
+            if o['saw'] != o['lab']:
+                v.append(f"{job['backend']}: two Labs alive at once: task {k} of Lab {o['lab']} saw the context of Lab {o['saw']}")
+        for tag, e in rec.get('two_labs_errors', {}).items():
+            v.append(f"{job['backend']}: two Labs alive at once: Lab {tag} failed with {e}")
+        if len(rec.get('two_labs_seen', {})) != 4 and not rec.get('two_labs_errors'):
+            v.append(f"{job['backend']}: two Labs alive at once: only {len(rec.get('two_labs_seen', {}))} of 4 tasks returned")
+        return v
     if rec['status'] != 'returned':
         return ['run_tasks ' + rec['status']]
     caller = rec['caller']
@@ -186,6 +195,8 @@ def run(ctx):
             j2['mark'] = j['mark'] + 100
             j2['pair_of'] = len(jobs) - 1
             jobs.append(j2)
+    for be in ('fork', 'spawn', 'serial'):
+        jobs.append(dict(two_labs=True, backend=be, n=4, deps=[], kinds=[], keys=[], req=[], mw=1, context=[], mark=0))
     per = [[] for _ in range(nworkers)]
     for i, j in enumerate(jobs):
         j['index'] = i
@@ -200,6 +211,11 @@ def run(ctx):
     lines, where = [], []
     for r in recs:
         job = r['job']
+        if job.get('two_labs'):
+            dist['two_labs_alive_at_once'] = dist.get('two_labs_alive_at_once', 0) + 1
+            for w in monitor(r):
+                violations.append(dict(what=w, replay=dict(job=job)))
+            continue
         dist['backend=' + job['backend']] = dist.get('backend=' + job['backend'], 0) + 1
         dist['tasks=%d' % job['n']] = dist.get('tasks=%d' % job['n'], 0) + 1
         dist['max_workers=%s' % job['mw']] = dist.get('max_workers=%s' % job['mw'], 0) + 1
